@@ -113,6 +113,49 @@ def apply(it, fn, args, dest_ty, term, caller, depth):
     # ---- intrinsics / inherent int methods
     if path.startswith("core::num::<impl ") and name == "pow" and len(args) == 2 and all(isinstance(a, Int) and a.is_conc() for a in args):
         return args[0].like(val=pow(args[0].val, args[1].val))
+    if (path in ("core::intrinsics::rotate_left", "core::intrinsics::rotate_right") or (path.startswith("core::num::<impl ") and name in ("rotate_left", "rotate_right"))) \
+            and len(args) == 2 and isinstance(args[0], Int) and isinstance(args[1], Int) and args[1].is_conc():
+        a = args[0]
+        n = args[1].val % a.w
+        bits = list(a.getbits())
+        if name == "rotate_right":
+            n = (a.w - n) % a.w
+        rot = bits[a.w - n:] + bits[:a.w - n] if n else bits
+        return Int(a.w, a.signed, bits=rot, kind=a.kind)
+    if (path in ("core::intrinsics::bswap",) or (path.startswith("core::num::<impl ") and name == "swap_bytes")) and len(args) == 1 and isinstance(args[0], Int):
+        a = args[0]
+        bits = list(a.getbits())
+        nb = a.w // 8
+        out = []
+        for k in range(nb):
+            out.extend(bits[8 * (nb - 1 - k): 8 * (nb - 1 - k) + 8])
+        return Int(a.w, a.signed, bits=out, kind=a.kind)
+    if (path in ("core::intrinsics::bitreverse",) or (path.startswith("core::num::<impl ") and name == "reverse_bits")) and len(args) == 1 and isinstance(args[0], Int):
+        a = args[0]
+        return Int(a.w, a.signed, bits=list(reversed(a.getbits())), kind=a.kind)
+    if path.startswith("core::num::<impl ") and name == "count_ones" and len(args) == 1:
+        return popcount(it, args[0])
+    if path.startswith("core::num::<impl ") and name in ("checked_sub", "checked_add") and len(args) == 2 and isinstance(args[0], Int) and isinstance(args[1], Int) and it.find_body(fn) is None:
+        a, b = args
+        if name == "checked_sub":
+            lt = it.binop("Lt", a, b, "bool")
+            if not (isinstance(lt, Int) and lt.is_conc()):
+                raise Undecided("checked_sub(%r, %r)" % (a, b))
+            return none() if lt.val else some(bv.binop("Sub", a, b))
+        r = bv.binop("Add", a, b)
+        if a.is_conc() and b.is_conc():
+            return none() if a.val + b.val >= (1 << a.w) else some(r)
+        return some(r)
+    if name == "contains" and len(args) == 2 and isinstance(deref_val(it, args[0]), Adt) and deref_val(it, args[0]).name.endswith("ops::Range"):
+        rg = deref_val(it, args[0])
+        x = deref_val(it, args[1])
+        lo = it.binop("Ge", x, rg.fields[0], "bool")
+        if isinstance(lo, Int) and lo.is_conc() and not lo.val:
+            return mkbool(False)
+        hi = it.binop("Lt", x, rg.fields[1], "bool")
+        if isinstance(lo, Int) and lo.is_conc() and isinstance(hi, Int) and hi.is_conc():
+            return mkbool(bool(lo.val and hi.val))
+        raise Undecided("Range::contains(%r)" % (x,))
     if path in ("core::intrinsics::ctpop",):
         return popcount(it, args[0])
     if path == "core::intrinsics::saturating_sub" or rpath.endswith("::saturating_sub") and isinstance(args[0], Int):
@@ -291,7 +334,8 @@ def apply(it, fn, args, dest_ty, term, caller, depth):
         if r is not NotImplemented:
             return r
     if name == "extend" and fn.get("trait", "").endswith("Extend") and len(args) == 2 and isinstance(args[0], Ref):
-        r = vec_model(it, name, fn, args, dest_ty)
+        tgt = it.read(args[0].cell, args[0].path)
+        r = deque_model(it, name, fn, args, dest_ty) if isinstance(tgt, DequeV) else vec_model(it, name, fn, args, dest_ty)
         if r is not NotImplemented:
             return r
     if name == "default" and fn.get("trait", "").endswith("Default") and not args:
@@ -319,6 +363,15 @@ def apply(it, fn, args, dest_ty, term, caller, depth):
                     return none()
                 idx = off + (n - 1 if name == "last" else 0)
                 return some(Ref(args[0].cell, args[0].path + (("e", idx),)))
+        if name in ("split_at", "split_at_mut") and len(args) == 2 and isinstance(args[1], Int) and args[1].is_conc():
+            sq = seq_of(it, args[0])
+            if sq is not None:
+                v, off, n = sq
+                mid = args[1].val
+                if mid > n:
+                    raise Diverge("split_at(%d) of a slice of length %d" % (mid, n))
+                r0 = args[0]
+                return Tup([Ref(r0.cell, r0.path, off, mid), Ref(r0.cell, r0.path, off + mid, n - mid)])
         if name == "len":
             return it.slice_len(args[0])
         if name == "is_empty":
@@ -436,9 +489,9 @@ def vec_model(it, name, fn, args, dest_ty):
         it.write(r.cell, r.path, VecV(v.elems + (args[1],)))
         return Tup([])
     if name == "extend" and len(args) == 2:
-        src = args[1]
-        if isinstance(src, (VecV, Arr)):
-            it.write(r.cell, r.path, VecV(v.elems + tuple(src.elems)))
+        items = drain_iter(it, args[1])
+        if items is not None:
+            it.write(r.cell, r.path, VecV(v.elems + tuple(items)))
             return Tup([])
     if name == "len":
         return Int(64, False, val=len(v.elems))
@@ -540,6 +593,37 @@ def option_model(it, name, fn, args, dest_ty, term, caller, depth):
         if is_some:
             return ov.fields[0]
         return call_callable(it, args[1], [], term, caller, depth)
+    if name == "map_or":
+        if is_some:
+            return call_callable(it, args[2], [ov.fields[0]], term, caller, depth)
+        return args[1]
+    if name == "map_or_else":
+        if is_some:
+            return call_callable(it, args[2], [ov.fields[0]], term, caller, depth)
+        return call_callable(it, args[1], [], term, caller, depth)
+    if name == "and_then":
+        if is_some:
+            return call_callable(it, args[1], [ov.fields[0]], term, caller, depth)
+        return none()
+    if name == "filter":
+        if not is_some:
+            return none()
+        r = call_callable(it, args[1], [Ref(Cell(ov.fields[0], "opt-inner"))], term, caller, depth)
+        if isinstance(r, Int) and r.is_conc():
+            return ov if r.val else none()
+        raise Undecided("Option::filter predicate %r" % (r,))
+    if name in ("is_some_and", "is_none_or"):
+        if not is_some:
+            return mkbool(name == "is_none_or")
+        return call_callable(it, args[1], [ov.fields[0]], term, caller, depth)
+    if name in ("or", "or_else"):
+        if is_some:
+            return ov
+        return args[1] if name == "or" else call_callable(it, args[1], [], term, caller, depth)
+    if name in ("ok_or", "ok_or_else"):
+        if is_some:
+            return Adt("std::result::Result", 0, [ov.fields[0]])
+        return Adt("std::result::Result", 1, [args[1] if name == "ok_or" else call_callable(it, args[1], [], term, caller, depth)])
     if name == "take" and byref:
         it.write(o.cell, o.path, none())
         return ov
@@ -551,13 +635,16 @@ def call_callable(it, f, argvals, term, caller, depth):
     fv = deref_val(it, f)
     if isinstance(fv, Closure):
         body = it.facts.fns.get(fv.path) if not it.mono else None
-        if body is None:
-            for k, b in it.facts.insts.items():
-                if b["path"] == fv.path:
-                    body = b
-                    break
-        if body is None:
-            body = it.facts.fns.get(fv.path)
+        if body is None and fv.ckey:
+            body = it.facts.insts.get(fv.ckey)
+        if body is None and it.mono:
+            cands = [b for b in it.facts.insts.values() if b["path"] == fv.path]
+            if len(cands) == 1:
+                body = cands[0]
+            elif cands:
+                raise Unsupported("closure %s has several monomorphic instances and the value does not say which" % fv.path)
+            else:
+                raise Unsupported("no monomorphic body for closure %s" % fv.path)
         if body is None:
             raise Unsupported("closure body %s not found" % fv.path)
         env = f if isinstance(f, Ref) else Ref(Cell(fv, "closure-env"))
@@ -588,7 +675,7 @@ class IterV:
         return "iter<%s %r>" % (self.kind, self.a if self.kind != "slice" else self.a[1:])
 
 
-ITER_ADAPTERS = ("map", "enumerate", "take", "skip", "rev", "cloned", "copied", "peekable", "step_by", "zip", "chain", "filter_map", "filter")
+ITER_ADAPTERS = ("map", "enumerate", "take", "skip", "rev", "cloned", "copied", "peekable", "step_by", "zip", "chain", "filter_map", "filter", "flat_map", "flatten")
 
 
 def seq_len(it, ref):
@@ -623,6 +710,13 @@ def iter_model(it, fn, name, args, dest_ty, term, caller, depth):
         a = args[0]
         if isinstance(a, IterV):
             return a
+        if isinstance(a, Adt) and a.name.endswith("option::Option") and a.variant is not None:
+            items = list(a.fields) if a.variant == 1 else []
+            return IterV("owned", (Ref(Cell(VecV(items), "opt-iter")), 0, len(items)))
+        if "IntoIterator for I" in (fn.get("rpath") or "") or "IntoIterator for I" in (fn.get("rkey") or ""):
+            return a   # the blanket impl for iterators is the identity
+        if isinstance(a, Adt) and not a.name.endswith("ops::Range") and user_next_body(it, fn) is not None:
+            return a   # a user-defined iterator struct: IntoIterator is the blanket identity impl
         if isinstance(a, Ref):
             v = it.read(a.cell, a.path)
             if isinstance(v, (Arr, VecV)):
@@ -660,6 +754,27 @@ def iter_model(it, fn, name, args, dest_ty, term, caller, depth):
                 return IterV("cloned", (inner,))
             if name == "peekable":
                 return IterV("peekable", (inner, None))
+            if name == "flatten":
+                return IterV("flat_map", (inner, None, None))
+            if name in ("filter", "filter_map", "flat_map"):
+                return IterV(name, (inner, args[1]) if name != "flat_map" else (inner, args[1], None))
+            if name == "zip":
+                other = args[1]
+                if isinstance(other, Ref):
+                    sq = seq_of(it, other)
+                    if sq is None:
+                        return NotImplemented
+                    other = IterV("slice", (other, 0, sq[2]))
+                elif isinstance(other, (VecV, Arr)):
+                    other = IterV("owned", (Ref(Cell(other, "zip-owned")), 0, len(other.elems)))
+                if not isinstance(other, (IterV, Adt)):
+                    return NotImplemented
+                return IterV("zip", (inner, other))
+            if name == "chain":
+                other = args[1]
+                if not isinstance(other, (IterV, Adt)):
+                    return NotImplemented
+                return IterV("chain", (inner, other))
             return NotImplemented
         if name in ("next", "next_back") and len(args) == 1 and isinstance(args[0], Ref):
             cur = it.read(args[0].cell, args[0].path)
@@ -676,7 +791,52 @@ def iter_model(it, fn, name, args, dest_ty, term, caller, depth):
                     break
                 out.append(item.fields[0])
             return VecV(out)
-        if name in ("all", "any") and len(args) == 2 and isinstance(args[0], Ref) and isinstance(it.read(args[0].cell, args[0].path), IterV):
+        if name in ("fold",) and len(args) == 3 and (isinstance(args[0], IterV) or (isinstance(args[0], Adt) and args[0].name.endswith("ops::Range"))):
+            cur = args[0]
+            acc = args[1]
+            for _ in range(100000):
+                cur, item = iter_next(it, cur, term, caller, depth)
+                if item.variant == 0:
+                    break
+                acc = call_callable(it, args[2], [acc, item.fields[0]], term, caller, depth)
+            return acc
+        if name in ("for_each",) and len(args) == 2 and (isinstance(args[0], IterV) or (isinstance(args[0], Adt) and args[0].name.endswith("ops::Range"))):
+            cur = args[0]
+            for _ in range(100000):
+                cur, item = iter_next(it, cur, term, caller, depth)
+                if item.variant == 0:
+                    break
+                call_callable(it, args[1], [item.fields[0]], term, caller, depth)
+            return Tup([])
+        if name in ("find", "position") and len(args) == 2 and isinstance(args[0], Ref) and isinstance(it.read(args[0].cell, args[0].path), (IterV, Adt)):
+            cur = it.read(args[0].cell, args[0].path)
+            res = none()
+            i = 0
+            for _ in range(100000):
+                cur, item = iter_next(it, cur, term, caller, depth)
+                if item.variant == 0:
+                    break
+                probe = Ref(Cell(item.fields[0], "find-item")) if name == "find" else item.fields[0]
+                r = call_callable(it, args[1], [probe], term, caller, depth)
+                if not (isinstance(r, Int) and r.is_conc()):
+                    raise Undecided("%s() predicate returned %r" % (name, r))
+                if r.val:
+                    res = some(item.fields[0]) if name == "find" else some(Int(64, False, val=i))
+                    break
+                i += 1
+            it.write(args[0].cell, args[0].path, cur)
+            return res
+        if name == "last" and len(args) == 1 and isinstance(args[0], (IterV,)):
+            cur = args[0]
+            res = none()
+            for _ in range(100000):
+                cur, item = iter_next(it, cur, term, caller, depth)
+                if item.variant == 0:
+                    break
+                res = item
+            return res
+        if name in ("all", "any") and len(args) == 2 and isinstance(args[0], Ref) and isinstance(it.read(args[0].cell, args[0].path), (IterV, Adt)) \
+                and (isinstance(it.read(args[0].cell, args[0].path), IterV) or it.read(args[0].cell, args[0].path).name.endswith("ops::Range")):
             cur = it.read(args[0].cell, args[0].path)
             res = (name == "all")
             for _ in range(100000):
@@ -799,6 +959,62 @@ def iter_next(it, cur, term, caller, depth, back=False):
             return IterV(k, (inner, f)), none()
         r = call_callable(it, f, [item.fields[0]], term, caller, depth)
         return IterV(k, (inner, f)), some(r)
+    if k in ("filter", "filter_map"):
+        inner, f = cur.a
+        for _ in range(100000):
+            inner, item = iter_next(it, inner, term, caller, depth, back)
+            if item.variant == 0:
+                return IterV(k, (inner, f)), none()
+            if k == "filter":
+                r = call_callable(it, f, [Ref(Cell(item.fields[0], "filter-item"))], term, caller, depth)
+                if not (isinstance(r, Int) and r.is_conc()):
+                    raise Undecided("filter predicate returned %r" % (r,))
+                if r.val:
+                    return IterV(k, (inner, f)), item
+            else:
+                r = call_callable(it, f, [item.fields[0]], term, caller, depth)
+                if not (isinstance(r, Adt) and r.variant is not None):
+                    raise Undecided("filter_map closure returned %r" % (r,))
+                if r.variant == 1:
+                    return IterV(k, (inner, f)), r
+        raise Unsupported("filter loop bound")
+    if k == "flat_map":
+        inner, f, curi = cur.a
+        for _ in range(100000):
+            if curi is not None:
+                curi, item = iter_next(it, curi, term, caller, depth)
+                if item.variant == 1:
+                    return IterV(k, (inner, f, curi)), item
+                curi = None
+            inner, item = iter_next(it, inner, term, caller, depth)
+            if item.variant == 0:
+                return IterV(k, (inner, f, None)), none()
+            r = call_callable(it, f, [item.fields[0]], term, caller, depth) if f is not None else item.fields[0]
+            if isinstance(r, (VecV, Arr)):
+                r = IterV("owned", (Ref(Cell(r, "flat")), 0, len(r.elems)))
+            elif isinstance(r, Adt) and r.name.endswith("option::Option"):
+                r = IterV("owned", (Ref(Cell(VecV(list(r.fields) if r.variant == 1 else []), "flat")), 0, 1 if r.variant == 1 else 0))
+            if not isinstance(r, (IterV, Adt)):
+                raise Unsupported("flat_map over %r" % (r,))
+            curi = r
+        raise Unsupported("flat_map loop bound")
+    if k == "zip":
+        a, b = cur.a
+        a, ia = iter_next(it, a, term, caller, depth)
+        if ia.variant == 0:
+            return IterV(k, (a, b)), none()
+        b, ib = iter_next(it, b, term, caller, depth)
+        if ib.variant == 0:
+            return IterV(k, (a, b)), none()
+        return IterV(k, (a, b)), some(Tup([ia.fields[0], ib.fields[0]]))
+    if k == "chain":
+        a, b = cur.a
+        if a is not None:
+            a, ia = iter_next(it, a, term, caller, depth)
+            if ia.variant == 1:
+                return IterV(k, (a, b)), ia
+        b, ib = iter_next(it, b, term, caller, depth)
+        return IterV(k, (None, b)), ib
     if k == "enumerate":
         inner, n = cur.a
         inner, item = iter_next(it, inner, term, caller, depth)
@@ -883,7 +1099,31 @@ def deque_model(it, name, fn, args, dest_ty):
         return Int(64, False, val=len(v.elems))
     if name == "is_empty":
         return mkbool(len(v.elems) == 0)
+    if name == "extend" and len(args) == 2:
+        items = drain_iter(it, args[1])
+        if items is not None:
+            it.write(r.cell, r.path, DequeV(v.elems + tuple(items)))
+            return Tup([])
+    if name in ("back", "front"):
+        if not v.elems:
+            return none()
+        return some(Ref(r.cell, r.path + (("e", len(v.elems) - 1 if name == "back" else 0),)))
     return NotImplemented
+
+
+def drain_iter(it, src, term=None, caller=None, depth=0):
+    """all items of an abstract iterator / collection value, or None"""
+    if isinstance(src, (VecV, Arr, DequeV)):
+        return list(src.elems)
+    if isinstance(src, IterV) or (isinstance(src, Adt) and src.name.endswith("ops::Range")):
+        out = []
+        cur = src
+        for _ in range(100000):
+            cur, item = iter_next(it, cur, term or {}, caller or {"path": "?", "file": "?"}, depth)
+            if item.variant == 0:
+                return out
+            out.append(item.fields[0])
+    return None
 
 
 def user_next_body(it, fn):
